@@ -312,6 +312,12 @@ def check_keywords_not_crossed(ctx, fi, rule='R-FWD/keyword-not-crossed'):
                 n += 1
                 ok = v.id == k
                 ctx.touch(fi)
+                if not ok and any(
+                        k2 == v.id and isinstance(v2, ast.Name)
+                        and v2.id == k for k2, v2 in pairs):
+                    # a deliberate exchange (n_rows=n_cols, n_cols=n_rows:
+                    # the transposed view): both values are handed over
+                    continue
                 if not ok:
                     # ... and the caller has a value of that name to give
                     from ..core.cfg import cfg_of
